@@ -673,6 +673,17 @@ def o_borrowed(case, lines):
         kinds = [r[6] for r in sec(lines, "B") if r[2] == "attr"]
         if kinds and (kinds[0] == "B") != m["expect_borrowed_attr"]:
             return "attribute storage is %s, the fast-path rule says %s" % (kinds[0], "B" if m["expect_borrowed_attr"] else "O")
+    if m.get("expect_borrowed_texts") is not None or m.get("expect_borrowed_attrs") is not None:
+        if result_class(lines) != "ok":
+            return "well-formed document rejected: " + " ".join(lines[1:2])
+        tk = [r[3] for r in sec(lines, "B") if r[2] == "text"]
+        ak = [r[6] for r in sec(lines, "B") if r[2] == "attr"]
+        for what, got, want in (("text", tk, m.get("expect_borrowed_texts") or []), ("attribute value", ak, m.get("expect_borrowed_attrs") or [])):
+            if want and len(got) != len(want):
+                return "%d %s strings, expected %d" % (len(got), what, len(want))
+            for k, w in enumerate(want):
+                if (got[k] == "B") != w:
+                    return "%s number %d is stored %s, the rule says %s (what an EARLIER string needed must not matter)" % (what, k, got[k], "B" if w else "O")
     if m.get("expect_all_borrowed"):
         # nothing in this document needs normalising: every attribute value and every text is a slice of the input
         for r in sec(lines, "B"):
